@@ -13,8 +13,11 @@ PROOF_FILES = ["Proofs/LowerFrame.v", "Proofs/LowerLemmas.v", "Proofs/LowerCorre
                "Proofs/NormalizeExamples.v", "Proofs/NormalizeLowered.v", "Proofs/SortCorrect.v", "Proofs/FlattenCorrect.v",
                # composition: source semantics -> flattened instruction list of one routine
                "Proofs/EndToEndExits.v", "Proofs/EndToEndGlue.v", "Proofs/EndToEnd.v", "Proofs/EndToEndTyped.v", "Proofs/EndToEndOpt.v",
-               "Proofs/EndToEndOptExample.v", "Proofs/EndToEndExamples.v"]
-EXTRA_PROPS = ["Props/C01_normalize.v", "Props/C01_flatten.v", "Props/C01_end_to_end.v"]
+               "Proofs/EndToEndOptExample.v", "Proofs/EndToEndExamples.v",
+               # slot assignment: rewriting abstract slots to assigned numbers is a semantic identity; composed with the above
+               "Proofs/SlotCompose.v", "Proofs/SlotComposeAssign.v", "Proofs/SlotComposeEnd.v", "Proofs/SlotComposeCover.v",
+               "Proofs/SlotComposeFinal.v", "Proofs/SlotComposePipeline.v", "Proofs/SlotComposeExamples.v"]
+EXTRA_PROPS = ["Props/C01_normalize.v", "Props/C01_flatten.v", "Props/C01_end_to_end.v", "Props/C01_slots.v"]
 
 
 def sem_check(ck, model, rng, c, nctx, stats):
@@ -165,6 +168,19 @@ def main(argv):
             terms[i:i + 2] = [("nary", "+", "u", (terms[i], terms[i + 1]))]
         return ("return", ("op", "==", (), "u", (terms[0], I(total))))
 
+    # 4. store/load-dense programs over a few variables, some with REQUESTED slot ids (low ids, so that the automatic counter has
+    #    to step over them), some accessed through their slot number: compiled with the optimiser off and compared with the source
+    #    semantics, in which every variable is a cell of its own (the model's assignment is proved injective) - an aliasing
+    #    assignment in the real compiler changes logged values
+    from c03 import store_dense_recipe
+    n_sd = 300 if thorough else 50
+    for i in range(n_sd):
+        version = rng.choice([5, 6, 8, 10])
+        app = rng.random() < 0.8
+        prepare, recipe = store_dense_recipe(rng, version, app, low_ids=True)
+        consider(compile_case(pt, model, recipe, version, app, False, None, prepare=prepare), 2)
+    ck.coverage["store_dense_requested_id_programs"] = n_sd
+
     n_cd = 400 if thorough else 60
     for i in range(n_cd):
         version = rng.choice([3, 4, 5, 6, 8, 10])
@@ -183,7 +199,7 @@ def main(argv):
         ck.violation("correspondence broken: compile_model text differs from compileTeal on %d generated programs (theorems about Comp/ no longer transfer); the semantic search over all generated contexts found no wrong behaviour" % len(mismatches),
                      {"kind": "correspondence", "broken": "text equality compileTeal vs Comp.Compile.compile_model", "case": c.describe()}, no_failing_input=True)
     if not ck.proof_ok and not semfails:
-        ck.violation("proof obligation broken: Props/C01*.v no longer check", {"kind": "proof", "broken": "Props/C01.v, Props/C01_normalize.v, Props/C01_flatten.v, Props/C01_end_to_end.v", "log": ck.proof_log[-1500:]}, no_failing_input=True)
+        ck.violation("proof obligation broken: Props/C01*.v no longer check", {"kind": "proof", "broken": "Props/C01.v, Props/C01_normalize.v, Props/C01_flatten.v, Props/C01_end_to_end.v, Props/C01_slots.v", "log": ck.proof_log[-1500:]}, no_failing_input=True)
     ck.coverage["disagreements_checked"] = len(mismatches) + len(semfails)
     ck.coverage["programs"] = sum(outcomes.values())
     model.close()
